@@ -21,10 +21,10 @@ std::vector<std::string> corpus_xml() {
 // grammar-generated synthetic descriptions: <= 7 levels, <= 256 PUs, NUMA as level and/or attached, memory/cache sizes
 std::string gen_synthetic(Rng &g) {
   struct L { const char *name; int pct; };
-  static const L order[] = {{"group", 25}, {"pack", 70}, {"group", 15}, {"die", 25}, {"l3", 40}, {"l2", 30}, {"core", 75}, {"l1", 25}};
+  static const L order[] = {{"group", 25}, {"pack", 70}, {"group", 15}, {"die", 25}, {"l3", 40}, {"l2", 30}, {"core", 75}, {"l1", 25}, {"group", 8}};
   std::vector<std::string> lv; unsigned total = 1;
   int numa_mode = (int)g.below(4);   // 0: one attached at root (implicit), 1: a numa level, 2: attached somewhere, 3: attached at two places
-  std::vector<int> chosen; for (int i = 0; i < 8; i++) if ((int)g.below(100) < order[i].pct) chosen.push_back(i);
+  std::vector<int> chosen; for (int i = 0; i < 9; i++) if ((int)g.below(100) < order[i].pct) chosen.push_back(i);
   int numa_pos = chosen.empty() ? 0 : (int)g.below(chosen.size() + 1);
   int att1 = chosen.empty() ? -1 : (int)g.below(chosen.size()), att2 = chosen.empty() ? -1 : (int)g.below(chosen.size());
   auto mem = [&]() -> std::string { static const char *m[] = {"", "(memory=1GB)", "(memory=512MB)", "(memory=0)", "(memory=4096kB)", "(memory=1GB memorysidecachesize=64MB)", "(memorysidecachesize=256MB)"}; return m[g.below(g.chance(1, 4) ? 7 : 5)]; };
